@@ -44,7 +44,10 @@ func (core *JApiCore) ExpandRawPathVariableShortcuts() *jerr.JApiError {
 				return r.pathDirective.KeywordError(fmt.Sprintf(`User type "%s" not found`, typeName))
 			}
 
-			r.schema = ut.Schema // copy schema
+			r.schema = ut.Schema               // copy schema
+			if r.schema.ContentJSight == nil { // a user type in another notation (regex, any)
+				return r.pathDirective.KeywordError("the body of the Path DIRECTIVE must be an object")
+			}
 		}
 
 		if err := checkPathSchema(r.schema); err != nil {
